@@ -20,6 +20,8 @@ OUT_DIR = os.path.join(VERIF, "out")
 CASE_WALL_LIMIT = 120  # seconds of real time for ONE case that normally takes milliseconds
 
 
+from . import rules_more
+
 class WallClockHang(BaseException):
     pass
 
@@ -457,7 +459,7 @@ def write_evidence(prop, tier, seed, acc, wall, violations, extra_cov=None, inco
     cov = {
         "evaluations": acc.evaluations,
         "distinct_nontrivial": len(acc.nontrivial),
-        "rule": prop.rule,
+        "rule": prop.rule + ((" " + rules_more.MORE[prop.id]) if prop.id in rules_more.MORE else ""),
         "samples": acc.samples[:8] or [],
         "labels": dict(sorted(acc.labels.items())),
         "stages": acc.stages,
